@@ -15,6 +15,7 @@
           ["combine_values_lifted",c] ["combine_globally",c,lifted,fanout|null] ["distinct"]
           ["distinct_per_key"] ["top_k_per_key",k] ["groups_to_list"] ["join",kind,rsteps,rdata]
    src:   ["vec","u"|"kv"|"kg",[values]] | ["sharded","u"|"kv",[[values],...],total_len]
+          | ["nolen","u"|"kv"|"kg",[values]]  (custom VecOps whose len() is None) | ["range",shape,n]
           | ["range","u"|"kv",n]  (rows 0..n-1; kv: key = i mod 7)
    Moduli must be positive, counts non-negative (anything else is malformed: the harness answers
    ["invalid"] for such an input and never runs it). *)
@@ -251,6 +252,7 @@ Definition dec_src (j : J) : option src :=
   match j with
   | JL [JS t; s; d] =>
       if tag_is t "vec" then obind2 (dec_shape s) (dec_vals d) SrcVec
+      else if tag_is t "nolen" then obind2 (dec_shape s) (dec_vals d) SrcNoLen
       else if tag_is t "range" then
         match dec_shape s, dec_nat d with
         | Some sh, Some n => if Nat.eqb sh TKG then None else Some (SrcVec sh (range_rows sh n))
